@@ -16,7 +16,9 @@ ALPHA = ['"', 'T', 'r', 'u', 'e', 't', ' ', '\n']
 EXTRA_BODIES = ['True', 'true', 'TRUE', '"True"', '""True""', '"True', 'True"', "'True'", ' True', 'True ', 'True\n',
                 '1', 'yes', '', '""', '"', 'null', '{"allowed": true}', '[true]', 'T' * 500, 'True' * 2, '\x00True',
                 'Тrue', 'True\x00', '﻿True', '"""""True"""', 'T"rue', 'Tr"ue', 'Tru"e', '"Tr"ue"', 'Tr""ue', 'T"r"u"e', '"T"rue', 'True"x', 'x"True',
-                'Tr ue', 'T\nrue']
+                'Tr ue', 'T\nrue',
+                # JSON spellings of the accepted text are not the accepted text
+                '"\\u0054rue"', '"Tru\\u0065"', ' "True" ', '\t"True"\r\n', '"True"\n', '["True"]', '{"True": 1}', 'true\n']
 
 
 def wire_target(t):
@@ -68,6 +70,7 @@ def run(run, binfo):
             c = base_case(rules={'pol': 'http://h/%(name)s', 'alias': 'rule:pol'}, rule=('name', 'pol'),
                           creds={'roles': ['y']}, target={'name': 'tgt'}, http=('reply', b, status))
             text = b.decode('utf-8', 'replace') if isinstance(b, bytes) else b
+            c['content_json'] = status % 2 == 1
             cases.append(c)
             wants.append(('ret', text.lstrip('"').rstrip('"') == 'True'))
     for i, b in enumerate(bodies):
@@ -76,6 +79,12 @@ def run(run, binfo):
         status = [200, 201, 204, 301, 400, 403, 404, 500, 503][i % 9]
         c = base_case(rules=rules, rule=('name', name), creds={'roles': ['y']}, target={'name': 'tgt'},
                       http=('reply', b, status))
+        # how the request is encoded plays no part in how the reply is read
+        c['content_json'] = (i // 2) % 2 == 1
+        # ... nor does the log level, whatever the target's keys look like
+        if i % 5 == 0:
+            c['debug'] = True
+            c['target'] = {'name': 'tgt', 'password': 'pw', 'auth_token': 'tk', 'nested': {'admin_pass': 'np'}}
         cases.append(c)
         ok = re.fullmatch(r'"*True"*', b) is not None
         if 'not ' in rules[name]:
@@ -122,6 +131,7 @@ def run(run, binfo):
     targets = [{}, {'name': 'n'}, {'name': 'n', 'network:tenant_id': 't-1', 'project.id': 'p.1', 'os-ext:zone': 'z'},
                {'name': 'n', 'nested': {'a': [1, {'b': None}], 'c': 2.5}},
                {'name': 'n', 'obj': object(), 'other': [1, 2]}, {'name': 'n', 'o1': object(), 'o2': object(), 'k': 'v'}]
+    targets += [{'name': 'n', 'password': 'pw', 'token': 'tk'}, {'name': 'n', 'nested': {'admin_pass': 'np', 'auth_token': 't'}}]
     credss = [{}, {'roles': ['a', 'b'], 'user_id': 'u'}, {'roles': [], 'nested': {'x': [1, 2]}},
               # credentials that happen to carry the key the URL reads from the TARGET
               {'roles': ['a'], 'name': 'from-credentials', 'nested': 'c'}]
@@ -164,7 +174,12 @@ def run(run, binfo):
             if 'roles' in cr:
                 cr['roles'][:] = real_roles
             _last_request.clear()
-        res = e.enforce(name, t, cr)
+        if len(pinfo) % 2 == 0:
+            world._debug_logging(True)         # the log level plays no part in what is sent
+        try:
+            res = e.enforce(name, t, cr)
+        finally:
+            world._debug_logging(False)
         run.evaluations += 1
         req = dict(_last_request)
         if {k: id(v) for k, v in t.items()} != keys_before or t.keys() != snap.keys():
